@@ -146,3 +146,16 @@ pub fn err_name(e: &paseto_core::PasetoError) -> &'static str {
         _ => "other",
     }
 }
+
+/// raw-bytes payload with a non-empty encoding suffix (token header `vNc.purpose.`)
+pub struct RawC(pub Vec<u8>);
+impl Payload for RawC {
+    const SUFFIX: &'static str = "c";
+    fn encode(self, mut writer: impl WriteBytes) -> Result<(), Box<dyn Error + Send + Sync>> {
+        writer.write(&self.0);
+        Ok(())
+    }
+    fn decode(payload: &[u8]) -> Result<Self, Box<dyn Error + Send + Sync>> {
+        Ok(RawC(payload.to_vec()))
+    }
+}
